@@ -117,6 +117,46 @@ def valid_dep_frames(role, brty):
     return out
 
 
+class _FakeTime(object):
+    """clock for the exchange() entry points: a response timeout costs exactly the time waited for"""
+    def __init__(self):
+        self.t = 1000.0
+
+    def time(self):
+        return self.t
+
+    def sleep(self, dt):
+        self.t += max(0.0, dt)
+
+
+class _ScriptClf(object):
+    """contactless frontend that answers with the scripted frames and is silent afterwards"""
+    def __init__(self, clock, frames):
+        self.clock, self.frames, self.calls = clock, list(frames), 0
+
+    def exchange(self, data, timeout):
+        self.calls += 1
+        if self.calls > 200:
+            raise RuntimeError("exchange() does not terminate")
+        if self.frames:
+            self.clock.t += 0.0005
+            return bytearray(self.frames.pop(0))
+        self.clock.t += max(0.0005, timeout or 0)
+        raise nfc.clf.TimeoutError("silence")
+
+
+def dep_exchange(role, brty, did, frames, clock, chain=False):
+    """one exchange() of an activated NFC-DEP endpoint against scripted peer frames"""
+    o = dep_obj(role, brty)
+    o.clf = _ScriptClf(clock, frames)
+    o.did, o.nad, o.pni, o.miu, o.rwt = did, None, 0, 8 if chain else 60, 0.005
+    if role == "I":
+        o._acm = False
+        return o.exchange(bytearray(b"\x00\x00" if not chain else bytes(20)), timeout=0.1)
+    o.acm, o.cmd = False, None
+    return o.exchange(bytearray(b"\x00\x00" if not chain else bytes(20)), timeout=0.1)
+
+
 def make_emu():
     tgt = nfc.clf.LocalTarget("212F")
     tgt.sensf_res = bytearray(b"\x01" + bytes.fromhex("02FE010203040506") + bytes.fromhex("FFFFFFFFFFFFFFFF") + b"\x12\xFC")
@@ -239,6 +279,40 @@ def part_a(tier, seed):
                 feed(entry, fn, d)
             for d in relen(valid_dep_frames(role, brty), 1 if brty == "106A" else 0, rnd):
                 feed(entry, fn, d)
+
+    # exchange() of an activated endpoint: the peer's answer(s) to one information PDU are arbitrary frames - every
+    # PFB value with and without DID/NAD/payload octets (grammar), mutations of valid frames, and two-frame scripts
+    clock = _FakeTime()
+    saved_time = nfc.dep.time
+    nfc.dep.time = clock
+    try:
+        for role in ("I", "T"):
+            code = b"\xD5\x07" if role == "I" else b"\xD4\x06"
+            entry = "dep.%s.exchange" % role
+            for brty in ("106A", "212F"):
+                def fr(body, brty=brty):
+                    f = bytes([len(body) + 1]) + body
+                    return (b"\xF0" if brty == "106A" else b"") + f
+                scripts = []
+                for pfb in range(256) if (not quick or brty == "212F") else range(0, 256, 3):
+                    for tail in (b"", b"\x00", b"\x01", b"\x00\x00", b"\x05\x01xyz"):
+                        scripts.append([fr(code + bytes([pfb]) + tail)])
+                valid = valid_dep_frames(role, brty)
+                for d in mutations(valid, rnd, n_rand // 6):
+                    scripts.append([d])
+                for _ in range(n_rand // 6):         # two answers: (ACK | RTOX | ATN | INF) then anything
+                    a = fr(code + bytes([rnd.choice([0x40, 0x41, 0x90, 0x80, 0x10, 0x11, 0x00, 0x01])]) + rnd.choice([b"", b"\x01", b"\x3b", b"ab"]))
+                    scripts.append([a, rnd.choice(valid + [fr(code + bytes([rnd.getrandbits(8)]) + bytes(rnd.getrandbits(8) for _ in range(rnd.randint(0, 3))))])])
+                for sc in scripts:
+                    for did in (None, 1):
+                        for chain in (False, True):
+                            k = (entry,) + outcome(lambda: dep_exchange(role, brty, did, sc, clock, chain))
+                            cnt[k] += 1
+                            data = b"".join(sc)
+                            if k not in samples or len(data) < len(samples[k]) // 2:
+                                samples[k] = data.hex()
+    finally:
+        nfc.dep.time = saved_time
 
     # emulated Type 3 Tag commands
     emu = make_emu()
@@ -373,7 +447,7 @@ def run_mitm(cfg):
     air.clock.install(nfc.dep, nfc.clf, nfc.llcp.llc)
     ev, lock = [], threading.Lock()
     done = threading.Event()
-    deaths = []
+    deaths, where = [], []
     t_end = air.clock.now + 25.0
 
     def add(a, x="-", keep=False, v="-"):
@@ -384,7 +458,12 @@ def run_mitm(cfg):
 
     def hook(args):
         if args.exc_type is not SystemExit:
+            if os.environ.get("C07_TRACEBACK"):
+                traceback.print_exception(args.exc_type, args.exc_value, args.exc_traceback)
             deaths.append("%s:%s" % (args.thread.name if args.thread else "?", args.exc_type.__name__))
+            fr = traceback.extract_tb(args.exc_traceback)
+            where.append("%s: %s @ %s" % (args.exc_type.__name__, str(args.exc_value)[:80],
+                                          " < ".join("%s:%d:%s" % (os.path.basename(f.filename), f.lineno, f.name) for f in fr[-4:][::-1])))
     threading.excepthook = hook
     try:
         if cfg["layer"] == "air":
@@ -510,7 +589,7 @@ def run_mitm(cfg):
     finally:
         threading.excepthook = old_hook
         air.clock.uninstall()
-    return dict(id=cfg["id"], ev=ev, injected=air.injected, nframes=len(air.log))
+    return dict(id=cfg["id"], ev=ev, injected=air.injected, nframes=len(air.log), where=where)
 
 
 def run_card(cfg):
@@ -719,9 +798,10 @@ def run(tier, seed):
             key = "B:%s:%s:%s:%s" % (cfg["kind"], cfg.get("layer", "tt3"), act, what if act != "Stall" else pos)
         else:
             key = "B:%s:%s:lifecycle:%s" % (cfg["kind"], cfg.get("layer", "tt3"), act)
-        ck.violation(key, "run %s: event %d %s not allowed (state %s); injected=%s cfg=%s" % (
+        ck.violation(key, "run %s: event %d %s not allowed (state %s); injected=%s cfg=%s%s" % (
             p["id"], line, json.dumps(e), json.dumps(why.get("st") if isinstance(why, dict) else why, default=str),
-            p["injected"][:1], json.dumps({k: cfg[k] for k in cfg if k != "cmds"})), replay=cfg)
+            p["injected"][:1], json.dumps({k: cfg[k] for k in cfg if k != "cmds"}),
+            " where=%s" % p["where"] if p.get("where") else ""), replay=cfg)
     ck.cover(evaluations=sum(cnt.values()) + len(runs), distinct_nontrivial=len(nontrivial),
              rule="part A: every byte string is executed on the real entry point; a case is (entry point, outcome class, exception type) "
                   "and all inputs are counted in evaluations, distinct classes judged by TLC against Robust!Allowed; part B: one complete-stack "
